@@ -221,6 +221,8 @@ func cmdCheck(args []string) int {
 	solverTime := 0.0
 	undecidedT3 := []string{}
 	vacuous := []string{}
+	deadReturns := map[string][]string{}
+	retCovers := map[string]int{}
 	var lines []string
 	for _, o := range obls {
 		solverTime += o.TimeS
@@ -230,7 +232,14 @@ func cmdCheck(args []string) int {
 			case "covered":
 				nCoverOK++
 			case "vacuous":
-				vacuous = append(vacuous, o.Name)
+				if strings.HasPrefix(o.Label, "ret") {
+					deadReturns[o.Fn] = append(deadReturns[o.Fn], o.Name)
+				} else {
+					vacuous = append(vacuous, o.Name)
+				}
+			}
+			if strings.HasPrefix(o.Label, "ret") {
+				retCovers[o.Fn]++
 			}
 			continue
 		}
@@ -272,6 +281,16 @@ func cmdCheck(args []string) int {
 		fmt.Printf("ERROR obligation count %d below the committed floor %d for %s (vacuity guard)\n", nTotal, ps.MinObligations, *prop)
 		return 2
 	}
+	deadList := []string{}
+	for fn, d := range deadReturns {
+		if len(d) == retCovers[fn] {
+			// no return point of the function is reachable under its contract: the proof is vacuous
+			vacuous = append(vacuous, d...)
+		} else {
+			deadList = append(deadList, d...)
+		}
+	}
+	sort.Strings(deadList)
 	if len(vacuous) > 0 {
 		for _, v := range vacuous {
 			fmt.Println("ERROR vacuous:", v, "(precondition or path condition is unsatisfiable)")
@@ -332,6 +351,7 @@ func cmdCheck(args []string) int {
 		"unverified_parts":         ps.Unverified,
 		"undecided_thorough_only":  undecidedT3,
 		"known_findings":           known,
+		"unreachable_return_points": deadList,
 		"load_s":                   round2(s.ld.LoadS),
 	}
 	if len(known) > 0 || level == "other" {
